@@ -65,6 +65,47 @@ Definition prop (c:(Z * (Z*Z) * (Z*Z) * Z) * (Z*Z)) :=
   else true.
 """
 
+PRE_LOOPS = """From IQ.gen Require Import Prims Loops.
+From IQ Require Import Intervals IntervalsSpec.
+Open Scope Z_scope.
+(* the REGENERATED loop functions (gen/Loops.v) against the Python functions; value under py_<f>_pre, exception class otherwise *)
+Definition T := ((list iv * iv * Z) * ((((Z * list iv) * list iv) * outcome iv) * outcome iv))%type.
+Definition guard {A} (pre:bool) (v:A) (k:N) : outcome A := if pre then Ok v else Raises k.
+Definition check (c:T) := let '(l, r, p) := fst c in let '((((t, j), e), fo), pr) := snd c in
+  (py_intervals_total_length l =? t) && ivs_eqb (py_junctions_from_blocks l) j && ivs_eqb (py_get_exons 0 0 r l) e && ivs_eqb (py_get_exons (-7) 99 r l) e &&
+  outcome_eqb iv_eqb (guard (py_get_following_exon_from_junctions_pre r l p) (py_get_following_exon_from_junctions r l p) IndexError) fo &&
+  outcome_eqb iv_eqb (if negb (p <=? Z.of_nat (length l)) then Raises AssertionError
+                      else guard (py_get_preceding_exon_from_junctions_pre r l p) (py_get_preceding_exon_from_junctions r l p) IndexError) pr.
+(* total length = sum of the interval lengths; at most one junction per adjacent pair; one exon more than junctions that lie inside the region *)
+Definition prop (c:T) := let '(l, r, p) := fst c in let '((((t, j), e), fo), pr) := snd c in
+  (t =? fold_right (fun a s => (snd a - fst a + 1) + s) 0 l) && (Z.of_nat (length j) <=? Z.max 0 (Z.of_nat (length l) - 1)) && (Z.of_nat (length e) <=? Z.of_nat (length l) + 1).
+"""
+
+PRE_HELPERS = """From IQ.gen Require Import Prims Loops.
+From IQ Require Import Intervals IntervalsSpec ProfileHelpers.
+Open Scope Z_scope.
+(* the REGENERATED profile helpers (gen/Loops.v; no hand model) against the Python functions: value under the function's own
+   `assert len(a) == len(b)` (py_<f>_pre), AssertionError otherwise *)
+Definition T := ((list Z * list Z) * ((((outcome Z * outcome bool) * outcome bool) * outcome (list Z)) * outcome (list iv)))%type.
+Definition feats (n:nat) : list iv := map (fun i => (10 * Z.of_nat i, 10 * Z.of_nat i + 5)) (seq 0 n).
+Definition guard {A} (pre:bool) (v:A) : outcome A := if pre then Ok v else Raises AssertionError.
+Definition check (c:T) := let '(p1, p2) := fst c in let '((((a, b), i), m), g) := snd c in let f := feats (length p1) in
+  outcome_eqb Z.eqb (guard (py_count_both_present_features_pre p1 p2) (py_count_both_present_features p1 p2)) a &&
+  outcome_eqb Bool.eqb (guard (py_all_features_present_pre p1 p2) (py_all_features_present p1 p2)) b &&
+  outcome_eqb Bool.eqb (guard (py_has_inconsistent_features_pre p1 p2) (py_has_inconsistent_features p1 p2)) i &&
+  outcome_eqb zs_eqb (guard (py_mask_profile_pre p1 p2) (py_mask_profile p1 p2)) m &&
+  outcome_eqb ivs_eqb (guard (py_get_blocks_from_profile_pre f p2) (py_get_blocks_from_profile f p2)) g.
+(* the declarative readings of ProfileHelpers.v evaluated on the implementation's output *)
+Definition prop (c:T) := let '(p1, p2) := fst c in let '((((a, b), i), m), g) := snd c in let f := feats (length p1) in
+  if Nat.eqb (length p1) (length p2) then
+    match a with Ok v => v =? spec_count_both p1 p2 | Raises _ => false end &&
+    match b with Ok v => Bool.eqb v (spec_all_present p1 p2) | Raises _ => false end &&
+    match i with Ok v => Bool.eqb v (spec_inconsistent p1 p2) | Raises _ => false end &&
+    match m with Ok v => zs_eqb v (spec_mask p1 p2) | Raises _ => false end &&
+    match g with Ok v => ivs_eqb v (spec_blocks f p2) | Raises _ => false end
+  else match a, b, i, m, g with Raises _, Raises _, Raises _, Raises _, Raises _ => true | _, _, _, _, _ => false end.
+"""
+
 PRE_SWEEP = """From Coq Require Import PrimFloat Uint63.
 From IQ.gen Require Import Prims.
 From IQ Require Import Intervals IntervalsSpec.
@@ -237,6 +278,41 @@ def run(ctx):
     ctx.rule("translated predicates of src/common.py: all interval pairs over [0..5] (incl. inverted) x delta 0..3, exhaustive")
     mism, viol = ctx.corr("translated_predicates", PRE_PRIMS, cases, shard=3000)
     ctx.corr_report("translated_predicates", mism, viol)
+
+    # ---- 0b. regenerated loop functions (gen/Loops.v, tools/translate_loops.py): validation of the translator's output against the Python functions
+    cases = []
+    ulists = [list(l) for l in sd_lists(5, 3)] + [[(3, 5), (1, 2)], [(1, 4), (2, 6)], [(2, 2), (2, 2), (5, 4)], [(4, 1)], [(1, 3), (4, 6), (7, 7)]]
+    for l in ulists:
+        for r in ((0, 8), (1, 6)) + (((l[0][0], l[-1][1]),) if l else ()):
+            for pos in range(-len(l) - 2, len(l) + 3):
+                e = call(c.get_exons, r, l)
+                if e[0] != "ok" or any(not isinstance(x, int) for t in e[1] for x in t): continue
+                fo = call(c.get_following_exon_from_junctions, r, l, pos); pr = call(c.get_preceding_exon_from_junctions, r, l, pos)
+                t = c.intervals_total_length(l); j = c.junctions_from_blocks(l)
+                cases.append(("(((%s, %s), %s), ((((%s, %s), %s), %s), %s))" % (civs(l), civ(r), cz(pos), cz(t), civs(j), civs(e[1]), cout(fo, civ), cout(pr, civ)),
+                              {"list": l, "region": r, "position": pos, "total": t, "junctions": j, "get_exons": e[1], "following": fo, "preceding": pr}))
+    if quick and len(cases) > 6000: cases = rnd.sample(cases, 6000)
+    ctx.rule("regenerated loop functions of src/common.py (gen/Loops.v: intervals_total_length, junctions_from_blocks, get_exons with two different pairs of sentinel values, get_following/preceding_exon_from_junctions incl. their exceptions): lists of <=3 intervals over 5 positions + unsorted / overlapping / inverted lists x 3 regions x positions -n-2..n+2; bridged to the hand models for all inputs by C19_*_is_the_source")
+    mism, viol = ctx.corr("translated_loops", PRE_LOOPS, cases, shard=1000, nontrivial=lambda o: len(o["list"]) > 1)
+    ctx.corr_report("translated_loops", mism, viol)
+
+    # ---- 0c. regenerated profile helpers without a hand model: exhaustive small-domain agreement with the Python functions + their declarative readings
+    cases = []
+    vals = (-2, -1, 0, 1)
+    profs = [list(p) for n in range(0, 4) for p in itertools.product(vals, repeat=n)]
+    pairs = [(a, b) for a in profs for b in profs if len(a) == len(b)]
+    pairs += [(a, b) for a in profs[:30] for b in profs[:30] if len(a) != len(b)]
+    for _ in range(300 if quick else 3000):
+        n = rnd.randint(4, 12); pairs.append(([rnd.choice(vals) for _ in range(n)], [rnd.choice(vals) for _ in range(n)]))
+    for a, b in pairs:
+        feats = [(10 * i, 10 * i + 5) for i in range(len(a))]
+        r = [call(c.count_both_present_features, a, b), call(c.all_features_present, a, b), call(c.has_inconsistent_features, a, b),
+             call(c.mask_profile, a, b), call(c.get_blocks_from_profile, feats, b)]
+        cases.append(("((%s, %s), ((((%s, %s), %s), %s), %s))" % (czs(a), czs(b), cout(r[0], cz), cout(r[1], cbool), cout(r[2], cbool), cout(r[3], czs), cout(r[4], civs)),
+                      {"profile1": a, "profile2": b, "count_both": r[0], "all_present": r[1], "inconsistent": r[2], "mask": r[3], "blocks": r[4]}))
+    ctx.rule("regenerated profile helpers of src/common.py without a hand model (gen/Loops.v: count_both_present_features, all_features_present, has_inconsistent_features, mask_profile, get_blocks_from_profile): every pair of profiles of equal length <= 3 over {-2,-1,0,1} (exhaustive) + pairs of unequal length (AssertionError) + random profiles of length 4-12; specification = the position-wise readings of ProfileHelpers.v (proved of the regenerated functions in C19_*_spec)")
+    mism, viol = ctx.corr("translated_profile_helpers", PRE_HELPERS, cases, shard=1500, nontrivial=lambda o: 1 in o["profile1"] and 1 in o["profile2"])
+    ctx.corr_report("translated_profile_helpers", mism, viol)
 
     # ---- 1. two-list sweeps: jaccard, merge_ranges, read_coverage_fraction
     U = 6 if quick else 8
